@@ -12,7 +12,7 @@ package proto
 // message, everything else exact including the dynamic types held in
 // QueryResponse.Results and attribute maps.
 // Fields with no counterpart in internal/*.proto are outside the message and
-// stay zero: QueryRequest.Index, IndexInfo.Options, IndexInfo.ShardWidth.
+// stay zero: QueryRequest.Index, IndexInfo.ShardWidth. (IndexInfo.Options is on the wire since internal.Index got its Meta field.)
 //
 // Hostile bytes: mutated valid encodings, semantically inconsistent but
 // wire-valid encodings, encodings of other message types, random bytes and
@@ -75,7 +75,7 @@ var c27Targets = []c27Target{
 }
 
 // fields that have no counterpart in the wire schema
-var c27OffWire = map[string]bool{"QueryRequest.Index": true, "IndexInfo.Options": true, "IndexInfo.ShardWidth": true}
+var c27OffWire = map[string]bool{"QueryRequest.Index": true, "IndexInfo.ShardWidth": true}
 
 var c27ResultKinds = []string{"nil", "*Row", "[]Pair", "ValCount", "uint64", "bool", "RowIDs", "[]GroupCount", "RowIdentifiers", "Pair"}
 
